@@ -2,7 +2,7 @@
    custom function that failed; the recorded location is the target field / slice index / source map key of
    the failing element; the wrap modes record exactly the documented part of that location. *)
 From Coq Require Import List NArith ZArith Bool Lia.
-From GV Require Import Base Ty Conf Val Plan Eval EvalFacts.
+From GV Require Import Base Ty TyFacts Conf Val Plan Eval EvalFacts.
 Import ListNotations.
 Open Scope N_scope.
 
@@ -243,5 +243,16 @@ Section provenance.
     induction ts as [|t1 r IH]; cbn; [discriminate|]. destruct (ty_eqb t1 t) eqn:E.
     - intros [= <- <-]. auto.
     - intros H. apply IH in H as (A & B & C). auto.
+  Qed.
+  (* ... so: for every context type the callee declares, it receives exactly the caller's value of that type *)
+  Theorem ctx_value_unchanged cx ts t : existsb (ty_eqb t) ts = true ->
+    ctx_get (map (fun t1 => (t1, ctx_get cx t1)) ts) t = ctx_get cx t.
+  Proof.
+    intros H. unfold ctx_get at 1.
+    destruct (find (fun kv => ty_eqb (fst kv) t) (map (fun t1 => (t1, ctx_get cx t1)) ts)) as [[t0 v]|] eqn:E.
+    - apply ctx_passed_on in E as (_ & Heq & ->). apply ty_eqb_eq in Heq. subst. reflexivity.
+    - exfalso. apply existsb_exists in H as [t1 [Hin Heq]]. apply ty_eqb_eq in Heq. subst t1.
+      assert (X : In (t, ctx_get cx t) (map (fun t1 => (t1, ctx_get cx t1)) ts)) by (apply in_map_iff; eauto).
+      eapply find_none in E; [|exact X]. cbn in E. rewrite ty_eqb_refl in E. discriminate.
   Qed.
 End provenance.
